@@ -205,6 +205,34 @@ static void restore_rounds(vt::Rng& g, int g0, int lgk, long wide) {
   }
 }
 
+// Deterministic sweep over the bounds tables (every file, start of segment 0): for every lg_k 4..13 an in-order sketch in HLL
+// mode (type and start_full_size rotating), observed once: lb3 <= lb2 <= lb1 <= est <= ub1 <= ub2 <= ub3 and the relative
+// half-widths against sd * RSE(lg_k) - one row of RelativeErrorTables per lg_k <= 12, the closed formula above.
+static void bounds_sweep(vt::Rng& g, long seed_off) {
+  static const int T3s[] = {4, 6, 8};
+  for (int lgk = 4; lgk <= 13; lgk++) {
+    long k = 1L << lgk, promo = lgk < 8 ? 8 : 3 * k / 32 + 1;
+    int id = 9;
+    obj[id].s.reset(new hll_sketch((uint8_t)lgk, tt(T3s[(lgk + seed_off) % 3]), ((lgk + seed_off) / 3) % 2 == 0));
+    obj[id].grp = new_group({}); obj[id].restored = false;
+    emit_new(id);
+    long n = promo + g.range(20, std::max(40L, k));
+    std::vector<Coupon> cs;
+    for (long j = 0; j < n; j++) {
+      Item it = draw(g, 1L << 22); Coupon c;
+      do_update(*obj[id].s, it);
+      if (ref_coupon(it, c)) cs.push_back(c);
+      if (cs.size() == 1000 || (j == n - 1 && !cs.empty())) {
+        View v = view(*obj[id].s, false);
+        Ev("Feed").i("id", id).raw("cs", coupons_json(cs)).i("mode", v.mode).b("empty", obj[id].s->is_empty()).raw("ph", phys(*obj[id].s, cs.back().addr, false)).emit();
+        cs.clear();
+      }
+    }
+    emit_obs({id});
+    obj[id].s.reset(); obj[id].grp = -1;
+  }
+}
+
 // Plant mined groups (hll_common.hpp Mined) into the base lock-step group, with an observation on both sides:
 //   a pair of DISTINCT coupons with the same 26-bit address (larger value first or last), a pair of distinct items with the
 //   identical coupon, a same-slot group with different addresses (equal and different values), and high-value steering items
@@ -274,6 +302,7 @@ int main(int argc, char** argv) {
     long wide = std::max(64L, (long)(g_budget * (g.chance(30) ? 0.2 : 2.0)));   // narrow ranges give duplicate-heavy streams
     int steer = g.chance(60) ? (int)g.range(5, 30) : 0;                           // % of updates drawn from the high-value pool
     int obs_pct = high ? 2 : (lgk >= 11 ? 1 : (lgk >= 9 ? 2 : 4));
+    if (seg == 0) bounds_sweep(g, (long)(seed % 6));
     int g0 = new_group({});
     static const int T3[] = {4, 6, 8};
     // crafted segment (segment 2 of a file and 15 % of the others, lg_k <= 10): the three lock-step sketches are deserialized from
